@@ -159,7 +159,7 @@ class RefExec:
         return self.tape.sub("%s:%s%s" % (self.stream, "/".join(map(str, path)), purpose))
 
     # ---- entry ---------------------------------------------------------------------------------
-    def run(self, op_name, raw_vars, root_value=None):
+    def run(self, op_name, raw_vars, root_value=None, root_is_none=False):
         p = self.plan
         ops = self.doc.operations()
         op = None
@@ -185,7 +185,7 @@ class RefExec:
         p.variables = variables
         self.vars = variables
         root_type = {"query": self.s.query, "mutation": self.s.mutation, "subscription": self.s.subscription}[op.op]
-        if root_value is None:
+        if root_value is None and not root_is_none:
             root_value = self.new_object(root_type, None, None, ("<root>",))
         p.root_value = root_value
         groups = self.collect(root_type, op.sels, set(), {})
